@@ -396,7 +396,7 @@ Fixpoint expr_schema (e : expr) : bool :=
   end.
 Definition oexpr_schema (o : option expr) : bool := match o with Some e => expr_schema e | None => true end.
 
-Fixpoint stmt_schema (in_function : bool) (s : stmt) : bool :=
+Fixpoint stmt_schema (s : stmt) : bool :=
   match s with
   | SExpr _ e => expr_schema e
   | SJump _ c => oexpr_schema c
@@ -404,7 +404,20 @@ Fixpoint stmt_schema (in_function : bool) (s : stmt) : bool :=
   | SLabel _ => true
   | SFunction _ args _ _ body =>
     match args with Some [] => false | _ => true end &&          (* optional string[len > 0] args *)
-    forallb (stmt_schema true) body
+    forallb stmt_schema body
   | SInclude incs => match incs with [] => false | _ => true end   (* IncludeScript[len > 0] includes *)
   end.
-Definition script_schema (c : script) : bool := forallb (stmt_schema false) c.
+Definition script_schema (c : script) : bool := forallb stmt_schema c.
+
+(* what the schema needs from one classified line: operators of the two enums in its expressions *)
+Definition kind_schema (k : line_kind) : bool :=
+  match k with
+  | KAssign _ e | KIf e | KWhile e | KFor _ _ e | KExpr e => expr_schema e
+  | KElif (ROk e) => expr_schema e
+  | KJump _ c | KReturn c => oexpr_schema c
+  | _ => true
+  end.
+Definition line_schema (lineno : nat) (line : str) : bool :=
+  match classify lineno line with ROk k => kind_schema k | _ => true end.
+Definition user_exprs_schema (chunks : list str) (start : nat) : bool :=
+  forallb (fun il => line_schema (start + fst il) (snd il)) (script_lines chunks).
